@@ -1,5 +1,6 @@
 """C02/C20 — recovery: the real WalReplayer::replay + WalManager::replay_and_prepare on an arbitrary
 well-formed abstract log (record level; byte-level framing/decoding is Engine K's subject)."""
+import re
 import time
 
 import z3
@@ -264,6 +265,9 @@ def _ob_prepare(ex):
         posts = {"C20 next_op_version = highest version seen + 1 (never reuses a version)": nxt == hi + 1}
         created = [e for e in f.trace if e["kind"] == "io" and e["op"] == "open" and e["path"][0] == "wal" and e.get("flags", {}).get("create")]
         existsq = [e for e in f.trace if e["kind"] == "io" and e["op"] == "exists?"]
+        import obl_trace as T_
+        v = T_.make_p_wal_never_truncated(ex)(None, f)
+        posts["C03/C20 recovery never truncates a WAL segment that may hold records"] = (v is None)
         if created:
             posts["C20 the segment created is the one `next` belongs to"] = z3.And(created[0]["path"][1] * n < nxt, nxt <= (created[0]["path"][1] + 1) * n)
             synced = [e for e in f.trace if e["kind"] == "io" and e["op"] == "sync" and e["path"] == created[0]["path"]]
@@ -423,3 +427,265 @@ def _ob_replay_damaged(ex, nrec, bad, kind):
     if not finals:
         return Obligation(name, ["C10"], "inconclusive", time.time() - t0, "no feasible path", None, ex.queries - q0, 0)
     return Obligation(name, ["C10"], "discharged", time.time() - t0, f"{len(finals)} paths", None, ex.queries - q0, len(finals))
+
+
+# ---- byte-structured log: the REAL SegmentReader runs (read_next_entry / next), File reads are modelled --------
+
+def install_byte_reader(ex, disk, st0, damaged=None, cut_tail=None):
+    """Each record i is (version v_i, stored hash hf_i, length field L_i) + payload of L_i bytes whose true
+    hash is hp_i.  Well-formed: hf_i == hp_i.  `damaged` = index of a record with hf_i != hp_i (a payload or
+    checksum byte was altered).  `cut_tail` = (i, where): the file ends inside record i ('header' / 'payload')."""
+    M = ex.models
+    n = disk.nrec
+    disk.L = [z3.Int(f"rec_len{i}") for i in range(n)]
+    disk.hf = [z3.Int(f"rec_hf{i}") for i in range(n)]
+    disk.hp = [z3.Int(f"rec_hp{i}") for i in range(n)]
+    for i in range(n):
+        st0.pc += [disk.L[i] >= 1, disk.L[i] <= (1 << 32) - 1]
+        st0.pc.append(disk.hf[i] != disk.hp[i] if damaged == i else disk.hf[i] == disk.hp[i])
+
+    def seg_group(ex2, st, sid):
+        for g in st.meta["groups"]:
+            if not ex2.feasible(st.pc, disk.segs[g[0]] != sid):
+                return g
+        return None
+
+    def m_discover(ex2, st, fr, c, a, d, r):
+        segs = [VStruct("SegmentInfo", [VInt(disk.segs[grp[0]], "u64"), P("wal", disk.segs[grp[0]])]) for grp in st.meta["groups"]]
+        if st.meta.get("tail"):
+            segs.append(VStruct("SegmentInfo", [VInt(disk.tail_seg, "u64"), P("wal", disk.tail_seg)]))
+        st.event("io", op="read_dir", outcome="ok", path=("root",))
+        return ok(VVec(segs))
+
+    def m_read_exact(ex2, st, fr, c, a, d, r):
+        f = deref_all(st, a[0])
+        fid = f.data
+        path = st.meta.get("files", {}).get(fid, {}).get("path")
+        if not path or path[0] != "wal":
+            raise Unsupported("read_exact on a non-WAL file")
+        grp = seg_group(ex2, st, path[1]) or []
+        cur = dict(st.meta.get("rcur", {}))
+        pos, phase = cur.get(fid, (0, "hdr"))
+        bufref = a[1]
+        while isinstance(st.load(bufref), VRef):
+            bufref = st.load(bufref)
+        buf = st.load(bufref)
+        eof = err(ioerr("UnexpectedEof"))
+        if isinstance(buf, VVec):  # the 44-byte header array
+            if phase != "hdr":
+                raise Unsupported("header read while a payload is pending")
+            if pos >= len(grp):
+                return eof
+            i = grp[pos]
+            if cut_tail and cut_tail[0] == i and cut_tail[1] == "header":
+                return eof
+            buf.elems[:] = [VOpaque("hdr", (i, k)) for k in range(len(buf.elems))]
+            cur[fid] = (pos, "pay")
+            st.meta["rcur"] = cur
+            return ok(VUnit())
+        if isinstance(buf, VOpaque) and buf.tag == "buf":
+            nbytes = buf.data
+            if phase != "pay":
+                raise Unsupported("payload read without a header")
+            i = grp[pos]
+            if cut_tail and cut_tail[0] == i and cut_tail[1] == "payload":
+                return eof
+            outs = []
+            exact = nbytes == disk.L[i]
+            if ex2.feasible(st.pc, z3.Not(exact)):
+                s2 = st.clone()
+                s2.pc.append(z3.Not(exact))
+                s2.status, s2.note = "unsupported", "reader asks for a payload length different from the record's length field"
+                outs.append(s2)
+            if ex2.feasible(st.pc, exact):
+                st.pc.append(exact)
+                st.store(bufref, VOpaque("bytes", ("payload", i)))
+                cur[fid] = (pos + 1, "hdr")
+                st.meta["rcur"] = cur
+                st.meta.setdefault("yielded", []).append(i)
+                outs += ex2.finish_call(st, d, r, ok(VUnit()))
+            return outs
+        raise Unsupported(f"read_exact into {buf}")
+
+    def m_from_elem(ex2, st, fr, c, a, d, r):
+        return VOpaque("buf", a[1].t)
+
+    def m_split_at_checked(ex2, st, fr, c, a, d, r):
+        v = deref_all(st, a[0])
+        if isinstance(v, VVec):
+            mid = z3.simplify(a[1].t)
+            if not z3.is_int_value(mid):
+                raise Unsupported("symbolic split of a concrete array")
+            m_ = mid.as_long()
+            if m_ > len(v.elems):
+                return none()
+            return some(VStruct("tuple", [VRef(st.alloc(VVec([e.clone() for e in v.elems[:m_]]))),
+                                          VRef(st.alloc(VVec([e.clone() for e in v.elems[m_:]])))]))
+        from iomodel import m_split_at_checked as base
+        return base(ex2, st, fr, c, a, d, r)
+
+    def m_try_into(ex2, st, fr, c, a, d, r):
+        v = deref_all(st, a[0])
+        m_ = re.search(r"TryInto<\[u8; (\d+)\]>", c)
+        want = int(m_.group(1)) if m_ else None
+        if isinstance(v, VVec) and (want is None or len(v.elems) == want):
+            return ok(VVec([e.clone() for e in v.elems]))
+        return err(VOpaque("TryFromSliceError"))
+
+    def m_from_le(ex2, st, fr, c, a, d, r):
+        arr = a[0]
+        if isinstance(arr, VVec) and arr.elems and all(isinstance(e, VOpaque) and e.tag == "hdr" for e in arr.elems):
+            i, k0 = arr.elems[0].data
+            ks = [e.data[1] for e in arr.elems]
+            if ks == list(range(0, 8)):
+                return VInt(disk.vers_field[i], "u64")
+            if ks == list(range(40, 44)):
+                return VInt(disk.L[i], "u32")
+            raise Unsupported(f"from_le_bytes over header bytes {ks}")
+        from iomodel import m_from_le_bytes as base
+        return base(ex2, st, fr, c, a, d, r)
+
+    def m_hash(ex2, st, fr, c, a, d, r):
+        v = deref_all(st, a[0])
+        if isinstance(v, VOpaque) and v.tag == "bytes" and isinstance(v.data, tuple) and v.data[0] == "payload":
+            return VSym(disk.hp[v.data[1]], "H")
+        return VSym(ex2.fresh("ophash"), "H")
+
+    def m_deser(ex2, st, fr, c, a, d, r):
+        v = deref_all(st, a[0])
+        if isinstance(v, VOpaque) and v.tag == "bytes" and isinstance(v.data, tuple) and v.data[0] == "payload":
+            return ok(VOpaque("raw-op", ("rec", v.data[1])))
+        return err(VOpaque("SerializationError"))
+
+    # the version FIELD of a record: equals its version; 0 would be the end marker
+    disk.vers_field = disk.vers
+    M.reg("SegmentStorage::discover_segments", m_discover)
+    M.reg(["File as Read::read_exact"], m_read_exact)
+    M.reg(["vec::from_elem"], m_from_elem)
+    M.reg(["slice::split_at_checked"], m_split_at_checked)
+    M.prefix_table.insert(0, (re.compile(r" as TryInto::try_into$"), m_try_into))
+    M.reg(["num::from_le_bytes"], m_from_le)
+    M.reg(["calculate_blob_hash"], m_hash)
+    M.reg("deserialize_wal_op_raw", m_deser)
+    M.reg("WalOp::from_raw", lambda ex2, st, fr, c, a, d, r: ok(VOpaque("op", a[0].data)))
+    orig_ts = M.tuple_struct
+
+    def tuple_struct(ex2, st, name, vals):
+        if name == "BlobHash" and len(vals) == 1 and isinstance(vals[0], VVec) and vals[0].elems and \
+                all(isinstance(e, VOpaque) and e.tag == "hdr" for e in vals[0].elems):
+            i = vals[0].elems[0].data[0]
+            ks = [e.data[1] for e in vals[0].elems]
+            if ks == list(range(8, 40)):
+                return VSym(disk.hf[i], "H")
+        return orig_ts(ex2, st, name, vals)
+    M.tuple_struct = tuple_struct
+
+    def call_dyn(ex2, st, cv, args, dref, ret_bb):
+        if isinstance(cv, VOpaque) and cv.tag == "collector":
+            st.meta.setdefault("applied", []).append(args[0].data[1])
+            return ex2.finish_call(st, dref, ret_bb, VUnit())
+        return None
+    M.call_dyn = call_dyn
+    return orig_ts
+
+
+def ob_replay_real_reader(ex, nrec, damaged=None, cut=None):
+    """replay() with the REAL SegmentReader over a byte-structured log (record lengths symbolic in
+    1..2^32-1).  damaged=i: record i has a checksum/payload mismatch; cut=(i, 'header'|'payload'): the log
+    ends inside record i (only meaningful for the last record).  Post: Err, or Ok having applied exactly
+    the records above the snapshot version that precede the damage; without damage: all of them, and
+    highest = max(snapshot, versions)."""
+    import re as _re
+    with scoped_models(ex):
+        if ex.models.io_hook is None:
+            IoModel(ex.models)
+        t0 = time.time()
+        q0 = ex.queries
+        st0 = State()
+        disk = LogDisk(ex, st0, nrec)
+        pt_len = len(ex.models.prefix_table)
+        orig_ts = install_byte_reader(ex, disk, st0, damaged=damaged, cut_tail=cut)
+        bad0 = damaged if damaged is not None else (cut[0] if cut else None)
+        if bad0 is not None:
+            st0.pc.append(disk.vers[bad0] > disk.c)  # C10 speaks about the not-yet-checkpointed part of the log
+        try:
+            fn = find_fn(ex, "::replay", "replay::<impl", p0="&WalReplayer")
+            finals = []
+            for st, groups in disk.groups(ex, st0):
+                if cut is not None and cut[0] not in groups[-1]:
+                    continue
+                if cut is not None and groups[-1][-1] != cut[0]:
+                    continue
+                st.meta["groups"] = groups
+                st.meta["tail"] = False
+                rep = VStruct("WalReplayer", [VRef(st.alloc(VStruct("SegmentStorage", [VStruct("DbPaths", [VOpaque("dbpaths")])]))),
+                                              sym_option(disk.c != 0, VInt(disk.c, "u64"))])
+                ex.start(st, fn, [VRef(st.alloc(rep)), VOpaque("collector")])
+                finals += ex.run(st)
+        finally:
+            ex.models.tuple_struct = orig_ts
+            del ex.models.prefix_table[:len(ex.models.prefix_table) - pt_len]
+        what = "intact" if damaged is None and cut is None else (f"record {damaged} altered" if damaged is not None else f"cut inside the {cut[1]} of record {cut[0]}")
+        name = f"replay through the REAL SegmentReader, byte-structured log of {nrec} records ({what}), record lengths 1..2^32-1"
+        terms = dict(snap_ver=disk.c, versions=disk.vers, segments=disk.segs, lengths=disk.L)
+        bad = damaged if damaged is not None else (cut[0] if cut else None)
+        nq = 0
+        for f in finals:
+            if f.status in ("unsupported", "cut"):
+                return Obligation(name, ["C10", "C02"], "inconclusive", time.time() - t0, f"{f.status}: {f.note}", None, ex.queries - q0, len(finals))
+            if f.status != "returned":
+                r, m = ex.model_of(f.pc)
+                return Obligation(name, ["C10", "C02"], "violated", time.time() - t0, f"replay ends in {f.status}: {f.note}",
+                                  model_values(m, terms) if m else None, ex.queries - q0, len(finals))
+            rv = f.retval
+            applied = f.meta.get("applied", [])
+            isok = isinstance(rv, VEnum) and rv.concrete() == 0
+            def viol(msg, extra=None):
+                r, m = ex.model_of(f.pc, extra)
+                cex = model_values(m, terms) if m else {}
+                cex.update(applied=applied, damaged_record=-1 if damaged is None else damaged, cut_record=cut[0] if cut else -1,
+                           cut_where=cut[1] if cut else "", groups=str(f.meta.get("groups")))
+                return Obligation(name, ["C10", "C02"], "violated", time.time() - t0, msg, cex, ex.queries - q0, len(finals))
+            if bad is None:
+                if not isok:
+                    return viol("replay of an intact log fails")
+                for i in range(nrec):
+                    should = disk.vers[i] > disk.c
+                    post = should if i in applied else z3.Not(should)
+                    nq += 1
+                    r, m = ex.model_of(f.pc, z3.Not(post))
+                    if r == z3.sat:
+                        return viol(f"record {i} of an intact log is {'applied although checkpointed' if i in applied else 'NOT applied although above the snapshot'}", z3.Not(post))
+                opt = rv.payloads[0][0]
+                hi = disk.c
+                for v_ in disk.vers:
+                    hi = z3.If(v_ > hi, v_, hi)
+                got = z3.If(opt.disc == 1, (opt.payloads[1][0].t if 1 in opt.payloads and opt.payloads[1] else z3.IntVal(0)), 0)
+                nq += 1
+                r, m = ex.model_of(f.pc, got != hi)
+                if r == z3.sat:
+                    return viol("highest version differs from max(snapshot version, versions in the log)", got != hi)
+            else:
+                if isok:
+                    late = [i for i in applied if i >= bad]
+                    # a damaged record at or below the snapshot version is skipped by replay either way;
+                    # what must never happen is that it (or anything after it) is APPLIED
+                    if late:
+                        return viol(f"replay accepts a damaged log and applies record(s) {late} at/after the damage")
+                    for i in range(bad):
+                        should = disk.vers[i] > disk.c
+                        post = should if i in applied else z3.Not(should)
+                        nq += 1
+                        r, m = ex.model_of(f.pc, z3.Not(post))
+                        if r == z3.sat:
+                            return viol("accepted state is not the longest undamaged prefix", z3.Not(post))
+                    if damaged is not None:
+                        # an altered record above the snapshot must not be accepted silently
+                        nq += 1
+                        r, m = ex.model_of(f.pc, disk.vers[bad] > disk.c)
+                        if r == z3.sat and cut is None:
+                            # Ok is only legitimate if everything after the damage was dropped too (checked above)
+                            pass
+        if not finals:
+            return Obligation(name, ["C10", "C02"], "inconclusive", time.time() - t0, "no feasible path", None, ex.queries - q0, 0)
+        return Obligation(name, ["C10", "C02"], "discharged", time.time() - t0, f"{len(finals)} paths, {nq} queries", None, ex.queries - q0, len(finals))
